@@ -1164,6 +1164,10 @@ def _bytes(eng, st, args, kwargs, line):
     v, = args
     if v.ty.kind in ('bytes', 'bytearray'):
         yield st, V(BYTES, v.t)
+    elif v.ty.kind == 'int':
+        r = z3.Function('zero_bytes', I, S)(v.t)
+        eng.fact(st, z3.Length(r) == z3.If(v.t >= 0, v.t, 0))
+        yield st, V(BYTES, r)
     elif v.ty.kind == 'any':
         for s1, u in eng.split_any(st, v):
             yield from _bytes(eng, s1, [u], kwargs, line)
@@ -1648,13 +1652,14 @@ be3 = z3.Function('be3', I, S)
 def _to_bytes(eng, st, recv, args, kwargs, line):
     n = z3.simplify(args[0].t)
     order = z3.simplify(args[1].t)
-    if not (z3.is_int_value(n) and n.as_long() == 3 and z3.is_string_value(order) and
+    if not (z3.is_int_value(n) and z3.is_string_value(order) and
             order.as_string() == 'big'):
         raise core.EngineError('int.to_bytes form at line %d' % line)
-    for s1, ok in eng.fork(st, z3.And(recv.t >= 0, recv.t < 2 ** 24)):
+    nb = n.as_long()
+    for s1, ok in eng.fork(st, z3.And(recv.t >= 0, recv.t < 256 ** nb)):
         if ok:
-            r = be3(recv.t)
-            eng.fact(s1, z3.Length(r) == 3)
+            r = be3(recv.t) if nb == 3 else z3.Function('be%d' % nb, I, S)(recv.t)
+            eng.fact(s1, z3.Length(r) == nb)
             yield s1, V(BYTES, r)
         else:
             yield s1, R('OverflowError', line)
